@@ -43,7 +43,7 @@ func hPresent(files map[string]vr.File, name string, hdr []string, rows [][]stri
 			row = append(row[:n/2], append([]string{vr.Str(vr.T("extra.r", ri))}, row[n/2:]...)...)
 			nr = append(nr, row)
 		}
-		f = vr.File{Name: name, Header: nh, Rows: nr, BOM: vr.Bool("bom")}
+		f = vr.File{Name: name, Header: nh, Rows: nr, BOM: vr.Bool("bom"), QuotedHeader: vr.Bool("quoted_header")}
 	}
 	files[name] = f
 	files["zzz_unknown.txt"] = vr.File{Name: "zzz_unknown.txt", Header: []string{"a"}, Rows: [][]string{{"b"}}}
